@@ -334,6 +334,12 @@ def c08(scn, out, tables, c, rn=None):
                 continue
             act = leak_active_ref(lk, t)
             if nid in iso:
+                # a junction cut off from every source reports zero pressure, so "zero otherwise" applies whatever the window says
+                c['c08.isolated_leaky_rows'] = c.get('c08.isolated_leaky_rows', 0) + 1
+                if act:
+                    c['c08.isolated_active_leak_rows'] = c.get('c08.isolated_active_leak_rows', 0) + 1
+                if ld != 0.0:
+                    viol.append(V('c08.isolated_node_leaks', n['type'], 't=%d %s is cut off from every source (reported pressure %r) but leak_demand is %r' % (t, nid, float(nd['pressure'][nid]), ld)))
                 continue
             if not act:
                 c['c08.inactive_rows'] = c.get('c08.inactive_rows', 0) + 1
